@@ -49,6 +49,16 @@ def sequences(physical: int) -> list[tuple[str, list]]:
     q2 = list(C.base("q", arity))
     q2[0] = P.t_triple(P.t_iri("q.qs"), P.t_iri("q.qp"), P.t_lit("q.x", "plain"))
     out.append(("quoted", [tuple(q), tuple(q2), tuple(q)]))
+    many_dt = []
+    for i in range(12):
+        st = C.base(f"d{i % 3}", arity)
+        st[2] = ("lit", P.sstr(P.Atom(f"d{i}.lex")), None, P.sstr(P.Atom(f"DT{i}.dt")))
+        many_dt.append(tuple(st))
+    many_dt.append(many_dt[0])
+    out.append(("many-datatypes", many_dt))
+    if physical == 3:
+        eg = [tuple(C.base("e0", 3) + [("lit", "", None, None)]), tuple(C.base("e1", 3) + [("lit", "", None, None)]), tuple(C.base("e2", 3) + [("lit", "0", None, P.sstr(P.Atom("xsd-integer.dt")))])]
+        out.append(("falsy-literal-graph-names", eg))
     consts = [("iri", "http://example.org/a#b"), ("iri", "http://example.org/a#"), ("iri", "urn:isbn:1"), ("iri", ""), ("iri", "http://example.org/a/b/c"), ("iri", "http://example.org/a#b")]
     cs = []
     for i in range(0, len(consts) - 2):
@@ -139,14 +149,18 @@ def check(chk: Check) -> None:
     jobs = []
     for physical in (1, 2, 3):
         for name, stmts in sequences(physical):
-            rdf11 = name in ("long-mixed", "repeats")
-            for pol in pols:
+            rdf11 = name in ("long-mixed", "repeats", "many-datatypes")
+            for pi_, pol in enumerate(pols):
+                if name in ("many-datatypes", "falsy-literal-graph-names") and pi_ >= 8:
+                    continue
                 sizes = (8, 4 if physical == 1 else 5, 2)
                 if pol.split == "none":
                     sizes = (8, 0, 2) if pol.evict == "lru" else sizes
+                if name == "many-datatypes":
+                    sizes = (8, 4 if physical == 1 else 5, 12)  # the datatype table is larger than the name table
                 flat_lt = 1 if physical == 1 else 2
                 parsers = [("generic", "parse_jelly_flat")]
-                if rdf11:
+                if rdf11 or name == "falsy-literal-graph-names":
                     parsers.append(("rdflib", "parse_jelly_flat"))
                 if pol.framing in ("one", "empty-and-options"):
                     parsers += [("generic", "parse_jelly_to_graph"), ("generic", "parse_jelly_grouped")]
